@@ -15,6 +15,8 @@ import (
 	_ "google.golang.org/protobuf/verifmc/checks/c15"
 	_ "google.golang.org/protobuf/verifmc/checks/c16"
 	_ "google.golang.org/protobuf/verifmc/checks/c17"
+	_ "google.golang.org/protobuf/verifmc/checks/c20"
+	_ "google.golang.org/protobuf/verifmc/checks/c21"
 	_ "google.golang.org/protobuf/verifmc/checks/c24"
 	_ "google.golang.org/protobuf/verifmc/checks/c30"
 	_ "google.golang.org/protobuf/verifmc/checks/refl"
